@@ -75,7 +75,7 @@ PROPS = {
                  "start with different candidates; distinct by case hash"),
         "assumptions": ["distinct sources have distinct neighbour addresses", "every route carries ORIGIN and AS_PATH"],
         "units": [
-            {"pkg": T, "test": "TestVerifC03", "quick": (12, 2500), "thorough": (16, 150000)},
+            {"pkg": T, "test": "TestVerifC03", "quick": (12, 2500), "thorough": (16, 60000)},
         ],
     },
     "C04": {
@@ -167,7 +167,7 @@ PROPS = {
                  "octets of the limit; distinct by case hash"),
         "assumptions": ["without ADD-PATH a prefix has one path identifier", "the receiver starts from an empty table"],
         "units": [
-            {"pkg": T, "test": "TestVerifC11", "quick": (16, 800), "thorough": (16, 60000)},
+            {"pkg": T, "test": "TestVerifC11", "quick": (16, 800), "thorough": (16, 25000)},
         ],
     },
     "C16": {
@@ -268,7 +268,7 @@ PROPS = {
         "rule": ("same histories and rule as C01; distinct by case hash"),
         "assumptions": [],
         "units": [
-            {"pkg": S, "test": "TestVerifC02", "quick": (16, 150), "thorough": (16, 8000), "timeout_q": 1500},
+            {"pkg": S, "test": "TestVerifC02", "quick": (16, 150), "thorough": (16, 5000), "timeout_q": 1500},
             {"pkg": T, "test": "TestVerifC02_table", "quick": (16, 150), "thorough": (16, 20000), "timeout_q": 1500},
         ],
     },
@@ -437,7 +437,7 @@ PROPS = {
                  "traffic; distinct by case hash"),
         "assumptions": [],
         "units": [
-            {"pkg": S, "test": "TestVerifC20", "race": True, "quick": (16, 25), "thorough": (16, 3000), "timeout_q": 1500, "gomaxprocs": [1, 2, 4, 8]},
+            {"pkg": S, "test": "TestVerifC20", "race": True, "quick": (16, 25), "thorough": (16, 2000), "timeout_q": 1500, "gomaxprocs": [1, 2, 4, 8]},
             {"pkg": S, "test": "TestVerifC01", "race": True, "quick": (8, 25), "thorough": (16, 1500), "timeout_q": 1500, "gomaxprocs": [2, 4, 8]},
             {"pkg": S, "test": "TestVerifC07_active", "race": True, "quick": (8, 60), "thorough": (16, 3000), "timeout_q": 1500, "gomaxprocs": [2, 4, 8]},
         ],
